@@ -233,11 +233,12 @@ pub fn panic_class(info: &PanicInfo) -> String {
 
 pub fn source_line(file: &str, line: u32) -> Option<String> {
     // panic locations are paths as the compiler saw them; the repo is at /repo
+    let repo = std::env::var("VERIF_REPO").unwrap_or_else(|_| "/repo".to_string());
     let candidates = [
         file.to_string(),
-        format!("/repo/sim/{file}"),
-        format!("/repo/sim/elvis-core/{file}"),
-        format!("/repo/sim/elvis/{file}"),
+        format!("{repo}/sim/{file}"),
+        format!("{repo}/sim/elvis-core/{file}"),
+        format!("{repo}/sim/elvis/{file}"),
     ];
     for c in candidates {
         if let Ok(text) = std::fs::read_to_string(&c) {
